@@ -154,8 +154,11 @@ func (voteSet *VoteSet) addVote(vote *Vote) (added bool, err error) {
 	blockKey := vote.BlockID.Key()
 
 	// Ensure that validator index was set
-	if valIndex < 0 || len(valAddr) == 0 {
-		panic("Validator index or address was not set in vote.")
+	if valIndex < 0 {
+		return false, ErrVoteInvalidValidatorIndex
+	}
+	if len(valAddr) == 0 {
+		return false, ErrVoteInvalidValidatorAddress
 	}
 
 	// Make sure the step matches.
